@@ -13,7 +13,7 @@ def clip(t, n):
 
 
 rows = ["| seed | what it changes (one line) | needs | checks that fire |", "|---|---|---|---|"]
-for sd in sorted((VERIF / "seeded").iterdir()):
+for sd in sorted(p_ for p_ in (VERIF / "seeded").iterdir() if p_.is_dir()):
     m = json.loads((sd / "meta.json").read_text())
     fire = "; ".join(f"{p} {','.join(r)}" for p, r in sorted(m.get("checks_that_fire", {}).items()))
     rows.append(f"| {sd.name} | {clip(m.get('summary', ''), 170)} | {clip(m.get('needs', ''), 110)} | {fire} |")
